@@ -2,7 +2,7 @@
 
 Masters: per direction a Moore request process; AW/W in either order or together; up to K outstanding requests per direction
 (K = 1 in the base runs, 2 in the '+pipelined' runs where the next AW/AR may be issued while earlier responses are pending);
-bready/rready free.  Slaves: reactive ready (ready = choice, enumerated only where a request can arrive), queues of depth Q per
+bready/rready free while a response is owed ('+eager_ready': in every cycle).  Slaves: reactive ready (ready = choice, enumerated only where a request can arrive), queues of depth Q per
 direction, B for the head AW+W pair / R for the head AR after an arbitrary delay, valid held.  Fail-stop faults for the
 time-out runs: the whole slave, or only its AW or only its W channel, stops accepting."""
 import itertools
@@ -71,7 +71,7 @@ class AxiIcHarness(Harness):
 
     def __init__(self, name, proto, kind, nm, ns, mode="mixed", timeout=None, w_before_aw=False, w_late=True, greedy=False,
                  err=False, faults=None, unmapped=False, cap=None, die_after_accept=False, idle0=False, pipelined=False,
-                 cross_slave=False, qdepth=None, rlen=0):
+                 cross_slave=False, qdepth=None, rlen=0, eager_ready=False):
         self.name, self.proto, self.kind, self.nm, self.ns, self.mode = name, proto, kind, nm, ns, mode
         self.timeout, self.w_before_aw, self.w_late, self.greedy, self.err = timeout, w_before_aw, w_late, greedy, err
         self.fault_sw, self.die_after_accept = faults, die_after_accept
@@ -79,6 +79,7 @@ class AxiIcHarness(Harness):
         self.K = 2 if pipelined else 1
         self.Q = qdepth or (2 if pipelined else 1)
         self.cross_slave = cross_slave
+        self.eager_ready = eager_ready   # bready / rready free in EVERY cycle (also while idle and while the request is still offered)
         self.rlen = rlen          # AXI (full) read bursts of rlen+1 beats (r.last only on the final beat)
         self.full = proto == "full"
         self.decoded = kind in ("shared", "crossbar", "decoder")
@@ -149,7 +150,7 @@ class AxiIcHarness(Harness):
                                 ic.append(("start", t, 1, 0))
                             if self.w_before_aw:
                                 ic.append(("start", t, 0, 1))
-                wc = [c + (b,) for c in ic for b in ((0, 1) if pend else (0,))]
+                wc = [c + (b,) for c in ic for b in ((0, 1) if (pend or self.eager_ready) else (0,))]
             tag, issue, pend, cool = rm[m]
             if not self.reads:
                 rc = [("-",)]
@@ -160,7 +161,7 @@ class AxiIcHarness(Harness):
                     ic = [("idle",)]
                     if len(pend) < self.K and (not cool or self.greedy or self.K > 1):
                         ic += [("start", t) for t in self.start_targets(pend)]
-                rc = [c + (b,) for c in ic for b in ((0, 1) if pend else (0,))]
+                rc = [c + (b,) for c in ic for b in ((0, 1) if (pend or self.eager_ready) else (0,))]
             per.append([(a, b) for a in wc for b in rc])
         out = []
         for mc in itertools.product(*per):
